@@ -256,9 +256,6 @@ func linEq(a, b *Term) *Term {
 		return nil
 	}
 	la, lb := Lin(a), Lin(b)
-	if !la.Nontrivial && !lb.Nontrivial {
-		return nil
-	}
 	w := a.Sort.W
 	var eqs []*Term
 	for i := 0; i < w; i++ {
@@ -270,6 +267,9 @@ func linEq(a, b *Term) *Term {
 			continue
 		}
 		eqs = append(eqs, linEqTerm(d))
+	}
+	if len(eqs) > 0 && !la.Nontrivial && !lb.Nontrivial {
+		return nil
 	}
 	// canonical order helps nothing semantically but keeps output stable
 	sort.SliceStable(eqs, func(i, j int) bool { return len(eqs[i].LinAtoms) < len(eqs[j].LinAtoms) })
